@@ -193,6 +193,26 @@ def c08_pruned():
     return None if abs(a - b).max() == 0 else "graph_ differs between n_epochs 11 and 400"
 
 
+def get_graph_elements_fn():
+    """umap.parametric_umap cannot be imported here (no TensorFlow): extract the pure function by AST"""
+    import ast
+    import os
+    from common import REPO
+    src = open(os.path.join(REPO, "umap", "parametric_umap.py")).read()
+    fn = [n for n in ast.parse(src).body if isinstance(n, ast.FunctionDef) and n.name == "get_graph_elements"][0]
+    ns = {"np": np}
+    exec(compile(ast.Module([fn], []), "get_graph_elements", "exec"), ns)
+    return ns["get_graph_elements"]
+
+
+def c08_gge():
+    g = scipy.sparse.random(30, 30, 0.3, format="csr", dtype=np.float32, random_state=1)
+    g.data = np.linspace(0.001, 1, g.nnz).astype(np.float32)
+    before = g.copy()
+    get_graph_elements_fn()(g, 50)
+    return None if abs(g - before).max() == 0 and not np.any(g.data == 0) else "get_graph_elements modified the graph it was given"
+
+
 def c09_sub():
     import umap
     X = _rng(12).normal(size=(60, 5)).astype(np.float32)
@@ -392,6 +412,7 @@ WITNESSES = {
     "C05:pca-no-variance-nan": c05_pca_novar,
     "C05:unique-too-few-distinct-rows": c05_two_distinct,
     "C08:graph-pruned-by-layout": c08_pruned,
+    "C08:get-graph-elements-prunes-graph": c08_gge,
     "C09:sub-mutates-left-operand": c09_sub,
     "C09:fit-writes-precomputed-knn": c09_knn,
     "C10:transform-small-n-epochs": c10_small_epochs,
